@@ -2092,6 +2092,7 @@ package apd
 //@   assigns *z, *x, *y
 //@   ensures val(z) == uf_gcd(old(val(a)), old(val(b))) && ret == z && !negzero(z) && (x != nil ==> val(x) == uf_bezx(old(val(a)), old(val(b)))) && (y != nil ==> val(y) == uf_bezy(old(val(a)), old(val(b))))
 //@ func (*BigInt).GCD
+//@   bridge-also math/big.(*Int).Sign, math/big.(*Int).SetUint64
 //@   layer bigint
 //@   props C16 C05 C06
 //@   nilable x, y
